@@ -59,6 +59,16 @@ def set_periodic(bc, ax, mode="both"):
         getattr(bc, hi).periodic = True
 
 
+def periodic_axis(cls, shape, org):
+    """The axis made periodic by the single-periodic-axis set-ups of the solver-level checks: one of the axes on which
+    a periodic condition is meaningful, chosen from the grid's parameters so that over the enumeration of shapes and
+    origins every candidate axis of every class is used (Grid3D: x, y and z; CylindricalGrid3D: theta and z)."""
+    cand = [ax for ax, k in enumerate(AXES[cls]) if periodic_ok(k)]
+    if not cand:
+        return None
+    return cand[(sum(int(n) for n in shape) + int(org)) % len(cand)]
+
+
 def has_radial(cls):
     return AXES[cls][0] == "rad"
 
